@@ -745,6 +745,23 @@ func nameLengthValues(bases []Val, lo, hi int) []Val {
 	return out
 }
 
+// oneHighCharNameValues: ASCII names of every length lo..hi with exactly one two-octet character
+// (UTF-8) at every position: every alignment of a multi-octet character against any octet-counted
+// limit an encoder might apply to the UTF-8 form of the name.
+func oneHighCharNameValues(bases []Val, lo, hi int) []Val {
+	var out []Val
+	for _, b := range bases {
+		for n := lo; n <= hi; n++ {
+			for p := 0; p < n; p++ {
+				v := b
+				v.Name = strings.Repeat("a", p) + "\u00fc" + strings.Repeat("b", n-p-1)
+				out = append(out, v)
+			}
+		}
+	}
+	return out
+}
+
 // nameCharValues puts every ISO 8859-1 character 1..255 into a one-character name and at the end
 // of a 29-character name.
 func nameCharValues(bases []Val) (out, repeats []Val) {
